@@ -56,6 +56,8 @@ def run(ctx, res):
         cases.append((src, rng.randrange(0, 9), 'valid', items))
         for k in feats:
             res.count('feat:' + k)
+    for src, items in gen_lua.word_programs(rng):
+        cases.append((src, rng.randrange(0, 9), 'valid', items))
     for s in (b'', b'\n', b'-- only\n', b'a=1', b'  a=1  ', b'--[[ x\n y ]]', b'if (a) b=1 else\nc=2\n', b'if (a) b=1 else', b'\n\n\n'):
         cases.append((s, 2, 'valid', None))
     for _ in range(ctx.budget(150, 5000)):
